@@ -128,6 +128,17 @@ func scenSUB(s *sched.Sim, cfg Config, res *Result) {
 		}
 		return &upScript{ack: "ack"}
 	}
+	{
+		var d []string
+		for _, sp := range specs {
+			var evs []string
+			for _, e := range sp.script.events {
+				evs = append(evs, e.kind)
+			}
+			d = append(d, fmt.Sprintf("conn %d id %s: %s vars=%v upstream script=%v", sp.conn, sp.id, sp.op.Text, sp.op.Vars, evs))
+		}
+		s.Describe(map[string]any{"services": w.ServiceSDL, "gateway": gc.String(), "subscriptions": d})
+	}
 	clients := make([]*wsClient, nConn)
 	finished := 0
 	// drawn here, on the driver goroutine: client goroutines can be woken concurrently by timers
